@@ -103,15 +103,20 @@ CURRENT = None
 
 def install(policy="fresh", chooser=None):
     global CURRENT
-    import serif.vector as sv
+    import sys
+    import serif  # noqa
     CURRENT = VAlloc(policy, chooser)
-    sv.id = CURRENT.vid
+    # every serif module that calls id() as a global sees the virtual identity
+    for name, mod in list(sys.modules.items()):
+        if (name == "serif" or name.startswith("serif.")) and mod is not None:
+            mod.__dict__["id"] = CURRENT.vid
     return CURRENT
 
 
 def uninstall():
     global CURRENT
-    import serif.vector as sv
-    if "id" in sv.__dict__:
-        del sv.__dict__["id"]
+    import sys
+    for name, mod in list(sys.modules.items()):
+        if (name == "serif" or name.startswith("serif.")) and mod is not None and "id" in mod.__dict__:
+            del mod.__dict__["id"]
     CURRENT = None
